@@ -32,6 +32,7 @@ func (w *Workers) Call(count int, value func() (interface{}, error)) (interface{
 	}, 1)
 	verifAt("workers.call.lock", w, count)
 	w.mutex.Lock()
+	verifAt("workers.call.locked", w, 0)
 	if w.cond == nil {
 		w.cond = sync.NewCond(&w.mutex)
 	}
@@ -74,6 +75,7 @@ func (w *Workers) Wait() {
 	w.ensure()
 	verifAt("workers.wait.lock", w, 0)
 	w.mutex.Lock()
+	verifAt("workers.wait.locked", w, 0)
 	defer w.mutex.Unlock()
 	for w.count != 0 {
 		verifAt("workers.wait.wait", w, 0)
@@ -86,6 +88,7 @@ func (w *Workers) Count() int {
 	w.ensure()
 	verifAt("workers.count.lock", w, 0)
 	w.mutex.Lock()
+	verifAt("workers.count.locked", w, 0)
 	defer w.mutex.Unlock()
 	return w.count
 }
@@ -109,6 +112,7 @@ func (w *Workers) worker() {
 	for {
 		verifAt("workers.worker.lock", w, 0)
 		w.mutex.Lock()
+		verifAt("workers.worker.locked", w, 0)
 		if len(w.queue) == 0 || w.count > w.target {
 			w.count--
 			if w.count == 0 {
